@@ -566,3 +566,15 @@ PROPS['C06']['covers'] = dict(PROPS['C06'].get('covers', {}), H_field=['field-se
 PROPS['C15']['quick'] = PROPS['C15']['quick'] + [wspec('H_unvendor', len=12)]
 PROPS['C15']['thorough'] = PROPS['C15']['thorough'] + [wspec('H_unvendor', len=16)]
 PROPS['C15']['covers'] = dict(PROPS['C15'].get('covers', {}), H_unvendor=['unvendor'])
+
+
+# copied syntax reaches the generated file for value expressions (C13) and copied declarations; a lost field may make it
+# not compile (C01): H_copyast also counts for C01 / C13 (added after seeded change S101: CallExpr.Ellipsis not copied)
+for _p in ('C01', 'C13'):
+    for _t in ('quick', 'thorough'):
+        PROPS[_p][_t] = PROPS[_p][_t] + [copyast()]
+    PROPS[_p]['covers'] = dict(PROPS[_p].get('covers', {}), H_copyast=['copied'])
+
+# a panic anywhere in the planner is a C20 matter: solve on skeletons with field providers and missing types
+PROPS['C20']['quick'] = PROPS['C20']['quick'] + [solve(1347, K=1, missing=2), solve(13467, K=1, missing=1)]
+PROPS['C20']['thorough'] = PROPS['C20']['thorough'] + [solve(11347, K=2, missing=2), solve(134567, K=1, missing=1)]
